@@ -148,7 +148,7 @@ Definition rk (s : sys) : nat :=
 (* every shutdown step strictly decreases the rank *)
 Definition rank_ok (s : sys) (l : label) (s' : sys) : bool :=
   negb (s_pclosed s && progress_label s l) || Nat.ltb (rk s') (rk s).
-(* C13: a refused inbound connection changes nothing (but the monitor bit); an admitted one
+(* C13: a refused inbound connection changes nothing (but the monitor bit); an accepted one
    creates the inbound FSM holding the connection.  Refused exactly when an inbound FSM exists,
    the outbound FSM is Established, or the peer is held down *)
 Definition core_eqb (a b : sys) : bool :=
